@@ -822,8 +822,8 @@ def nesting_depth(parent):
 
 def levelset_case(rng, k):
     """(V, E symmetric, data (V, dim) float array of integers, kind)"""
-    kind = k % 6
-    if kind < 4:
+    kind = k % 4
+    if kind < 2:
         V = int(rng.integers(1, 11))
         dens = rng.choice([0.2, 0.4, 0.7])
         E = []
@@ -832,8 +832,8 @@ def levelset_case(rng, k):
                 if rng.random() < dens:
                     E += [(a, b), (b, a)]
         levels = int(rng.choice([1, 2, 4, 30]))
-        dim = 1 if k % 4 else int(rng.integers(2, 4))
-        data = rng.integers(-levels if k % 2 else 0, levels + 1, (V, dim)).astype(float)   # every other case has negative values (basin maxima <= 0)
+        dim = 1 if k % 8 else int(rng.integers(2, 4))
+        data = rng.integers(-levels if (k // 4) % 2 else 0, levels + 1, (V, dim)).astype(float)   # every other case has negative values (basin maxima <= 0)
         return V, E, data, "random"
     # many maxima and deeply nested saddles: sparse graphs (paths, trees, grids, rings) with pairwise distinct values
     V = int(rng.integers(6, 19))
@@ -854,7 +854,7 @@ def levelset_case(rng, k):
     E = []
     for a, b in dict.fromkeys((min(a, b), max(a, b)) for a, b in und if a != b):
         E += [(a, b), (b, a)]
-    if kind == 4:       # random permutation of distinct values
+    if kind == 2:       # random permutation of distinct values
         vals = [int(x) for x in rng.permutation(V)]
     else:               # zigzag: high values on every other vertex, low values between them, the low ones nearly sorted
         hi = [int(x) for x in rng.permutation(range(V // 2, V))]
@@ -884,7 +884,10 @@ def levelsets_section(ck):
         refdim = int(rng.integers(0, dim))
         col = [int(x) for x in data[:, refdim]]
         vals = sorted(set(col))
-        th = float(rng.choice(vals + [vals[0] - 1, vals[-1] + 1])) if k % 3 else -np.inf
+        if origin == "nested":
+            th = -np.inf if k % 5 else float(vals[int(rng.integers(0, max(1, len(vals) // 3)))])      # mostly the whole graph, sometimes the lowest third cut off
+        else:
+            th = float(rng.choice(vals + [vals[0] - 1, vals[-1] + 1])) if k % 3 else -np.inf
         above = [c >= th for c in col]
         rp = {"V": V, "edges": [list(e) for e in E], "field": data.tolist(), "refdim": refdim, "th": th}
         ck.count(("level", V, tuple(E), data.tobytes(), refdim, th), nontrivial=V > 1 and any(above),
@@ -925,11 +928,11 @@ def levelsets_section(ck):
         # correspondence with the Coq model of custom_watershed (column refdim, exact integers)
         cth = "None" if th == -np.inf else "(Some %s)" % cz(int(th))
         if werr is None:
-            terms.append("ws_eqb (custom_watershed %s %s %s) (Some (%s, %s))" % (cedges(E), czl(col), cth, cnatl(widx), czl(wlab)))
+            terms.append("ws_eqb (custom_watershed_fast %s %s %s) (Some (%s, %s))" % (cedges(E), czl(col), cth, cnatl(widx), czl(wlab)))
             meta.append(("custom_watershed/model-vs-impl", "custom_watershed(refdim=%d, th=%s) on V=%d edges=%s column %s: impl idx %s label %s" % (refdim, th, V, E, col, widx, wlab),
                          dict(rp, idx=widx, label=wlab)))
         elif werr == "AttributeError":
-            terms.append("ws_eqb (custom_watershed %s %s %s) None" % (cedges(E), czl(col), cth))
+            terms.append("ws_eqb (custom_watershed_fast %s %s %s) None" % (cedges(E), czl(col), cth))
             meta.append(("custom_watershed/model-vs-impl", "custom_watershed(th=%s) raises on V=%d edges=%s column %s but the model returns a labelling" % (th, V, E, col), dict(rp, impl="raises")))
         if werr is not None:
             if not any(above):
